@@ -183,6 +183,10 @@ def finish(pid, tier, seed, cfg, reports, drift, extra, t0):
             undecided.append({"function": fid, "obligation": "*", "reason": "zero obligations generated (vacuity guard)"})
         if r.get("unreached_ensures"):
             vac.append({"function": fid, "unreached_ensures": r["unreached_ensures"]})
+            if (r.get("outcomes") or {}).get("return", 0) == 0 and fid not in cfg.get("never_return", []):
+                # no normal return is feasible although the contract has postconditions: a contradictory assumption somewhere (an assumed callee
+                # clause, a precondition) would make everything after it "proved".  Functions that are meant never to return are listed by the property.
+                undecided.append({"function": fid, "obligation": "*", "reason": "no feasible normal return: every postcondition is unreached (vacuity guard)"})
         for o in obs:
             if r.get("helper_drift") and o["result"] == "failed":
                 continue
